@@ -1,5 +1,6 @@
 import Oracle.Util
 import Wz.Model.Wasi
+import Wz.Model.WasiFs2
 import Wz.Model.DescTable
 namespace Oracle.C15
 open Oracle Wz.Model Wz.Model.Wasi
@@ -33,6 +34,8 @@ def parseKind : String → Option Kind
   | "pre" => some .pre
   | "file" => some .file
   | "dir" => some .dir
+  | "lsn" => some .lsn
+  | "conn" => some .conn
   | _ => none
 
 def kindStr : Kind → String
@@ -42,6 +45,8 @@ def kindStr : Kind → String
   | .pre => "pre"
   | .file => "file"
   | .dir => "dir"
+  | .lsn => "lsn"
+  | .conn => "conn"
 
 def parseFds (s : String) : Option Fds :=
   if s == "-" then some DescTable.empty else
@@ -69,6 +74,7 @@ def errStr : Err → String
   | .any => "e=any"
   | .panic => "e=panic"
   | .exit => "e=exit"
+  | .nz => "e=nz"
 
 def resStr (r : Res) : String :=
   let parts := [errStr r.err] ++ r.writes.filterMap wrStr ++
@@ -82,6 +88,7 @@ def tblShape (t : DescTable.Table Nat) : String :=
 def step (st : St) (args : List String) : St × String :=
   match args with
   | ["modelled"] => (st, String.intercalate " " modelled)
+  | ["modelled2"] => (st, String.intercalate " " modelled2)
   | ["variant", v] =>
     if v == "asis" then ({ st with fixed := false }, "ok")
     else if v == "fixed" then ({ st with fixed := true }, "ok") else (st, "bad-op")
@@ -106,9 +113,20 @@ def step (st : St) (args : List String) : St × String :=
         | .ok (_, _, dst) => (st, s!"e=0 a={8 * (slotsAfterInsertAt t dst - DescTable.slots t)}")
       else
       match call st.fixed st.host t m fn a with
-      | some r => (st, resStr r)
+      | some rs => (st, String.intercalate " | " (rs.map resStr))
       | none => (st, "bad-op")
     | _, _, _ => (st, "bad-op")
+  | ["hostdirs", pre, dir] =>
+    let p := fun (x : String) => if x == "-" then some [] else (x.splitOn ",").mapM parseNat
+    match p pre, p dir with
+    | some a, some b => ({ st with host := { st.host with preEntries := a, dirEntries := b } }, "ok")
+    | _, _ => (st, "bad-op")
+  | "designated" :: fn :: img :: rest =>
+    match (st.imgs.find? (·.1 == img)).map (·.2), parseNats rest with
+    | some m, some a =>
+      let rs := (designated st.host m fn (a.map w32)).filter (fun r => r.2 > 0)
+      (st, s!"{rs.length} {rs.foldl (fun h r => (h * 1000003 + r.1 * 65537 + r.2) % 1099511627776) 0}")
+    | _, _ => (st, "bad-op")
   | ["tbl", "new"] => ({ st with tbl := DescTable.empty }, "ok")
   | ["tbl", "insert", id] =>
     match parseNat id with
